@@ -233,8 +233,22 @@ def axis_ctor_args(tree, attr):
     raise GenError('System.__init__: self.%s not constructed' % attr)
 
 
-def tables(repo):
-    """-> dict of evaluated constants (also used by the Python oracles)"""
+DEFAULT_LITERALS = dict(n_flag=4, at_len=8, at_cnt=12, at_num=16, min_len=20, cmd_len=26, pt_head=42,
+                        pt_entry=20, st_inactive=0, st_active=3, slew_limit=1, stow_rate_factor=0.5)
+
+
+def tables(repo, strict=True):
+    """-> dict of evaluated constants.  strict=False (used only by the Python oracles, which state
+    the property and must keep running on a tree whose source shapes are not recognised) skips the
+    shape checks and takes the protocol literals from DEFAULT_LITERALS."""
+    if not strict:
+        global _expect
+        saved = _expect
+        _expect = lambda where, got, want: {k: str(v) for k, v in DEFAULT_LITERALS.items()}
+        try:
+            return tables(repo, True)
+        finally:
+            _expect = saved
     base = os.path.join(repo, 'simulators', 'acu')
     t_init = ast.parse(open(os.path.join(base, '__init__.py')).read())
     t_axis = ast.parse(open(os.path.join(base, 'axis_status.py')).read())
@@ -281,6 +295,16 @@ def tables(repo):
             MODE_COMMAND_SHAPE)
     v = _expect('MasterAxisStatus._validate_mode_command',
                 _body_lines(_fn(t_axis, 'MasterAxisStatus', '_validate_mode_command')), VALIDATE_SHAPE)
+    # _preset_relative: the base of the relative move (p_Soll on the pinned tree; fixes/15a of the
+    # kinematics agent makes it p_Ist) -- the model follows whichever the source has
+    rel = [ln for ln in _body_lines(_fn(t_axis, 'MasterAxisStatus', '_preset_relative'))
+           if ln.startswith('desired_pos = ')]
+    if rel == ['desired_pos = self.p_Soll + int(round(angle * 1000000))']:
+        T['rel_from_p_Ist'] = False
+    elif rel == ['desired_pos = self.p_Ist + int(round(angle * 1000000))']:
+        T['rel_from_p_Ist'] = True
+    else:
+        raise GenError('MasterAxisStatus._preset_relative: unknown source shape %r' % (rel,))
     T['st_inactive'] = int(v['st_inactive'])
     T['st_active'] = int(v['st_active'])
     T['slew_limit'] = int(v['slew_limit'])
@@ -337,6 +361,8 @@ def coq_text(T):
          'Definition st_inactive : Z := %d.' % T['st_inactive'],
          'Definition st_active : Z := %d.' % T['st_active'],
          'Definition slew_limit : Z := %d.' % T['slew_limit'],
+         '(* _preset_relative adds the angle to p_Ist (true) or to p_Soll (false) *)',
+         'Definition rel_from_p_Ist : bool := %s.' % ('true' if T['rel_from_p_Ist'] else 'false'),
          'Definition stow_rate_factor_bits : Z := %d.' % bits64(T['stow_rate_factor']),
          '']
     for name in ('AZ', 'EL'):
